@@ -361,7 +361,28 @@ def rule_default_advection(chk, prog):
             f'{PE}.PrimitiveEquations.vertical_advection defaults to the centred stencil (the discretisation the implicit H matrix is derived from)', txt, (cls.file, cls.lineno))
 
 
+def rule_explicit_half(chk, prog):
+  """C04.10: the explicit halves that H and the implicit pressure-gradient term are the counterparts of — the ω/p stencil applied to T_ref and T′
+  (α-weighted layer and the layer above, zero above the top layer: H is derived from exactly this form) and the explicit R·T′·∇ln pₛ force on
+  every configuration branch (its T_ref share is always applied implicitly).  The form rules are those of C05.2 (instances re-filed here)."""
+  from sa import report
+  from rules import c05
+  rule = 'C04.10-explicit-counterparts-of-the-implicit-terms'
+  probe = report.Check('C04-probe')
+  c05.rule_terms(probe, prog)
+  keep = [i for i in probe.instances if '_t_omega_over_sigma_sp' in i['key'] or 'curl_and_div_tendencies' in i['key']]
+  if len(keep) < 6:
+    raise AnalysisError(f'C04: the ω/p and pressure-gradient instances of C05.2 were not produced ({len(keep)})')
+  for i in keep:
+    i = dict(i, rule=rule)
+    chk.instances.append(i)
+    if i['status'] != 'holds':
+      chk.violations.append(i)
+  chk.at_least(rule, 6)
+
+
 def run(chk, prog, tier):
+  rule_explicit_half(chk, prog)
   rule_loading_coefficients(chk, prog)
   rule_virtual_temperature(chk, prog)
   rule_pairing(chk, prog)
